@@ -42,7 +42,7 @@ type C19Case struct {
 
 func init() {
 	register("C19",
-		"round trip: every top-level and nested statement of grammar-derived programs (all node kinds, empty and >64KiB strings, absent optional parts, sub parameters, call arguments) encoded one by one (Encode) and as a list (Encodes), decoded, canonical dumps compared (comments/positions/presentational flags excepted). totality: valid encodings after 1-3 byte mutations (truncate, bit flip, overwrite length field, splice, delete), and raw bytes, decoded by codec.Decoder and plugin.ReadLinterRequest behind an EOF-counting reader (fuel) in an isolated worker. non-trivial: round trip of a statement with nesting >=2 or an optional part; totality case rejected after >=1 frame was consumed; distinct by case",
+		"round trip: every top-level and nested statement of grammar-derived programs (all node kinds, empty and >64KiB strings, absent optional parts, sub parameters, call arguments) encoded one by one (Encode) and as a list (Encodes), decoded, canonical dumps compared (comments/positions/presentational flags excepted); every single-statement encoding is also read through plugin.ReadLinterRequest instantiated at the statement's type and must give the same statement (encodings of more than 64 KiB included). totality: valid encodings after 1-3 byte mutations (truncate, bit flip, overwrite length field, splice, delete), and raw bytes, decoded by codec.Decoder and plugin.ReadLinterRequest behind an EOF-counting reader (fuel) in an isolated worker. non-trivial: round trip of a statement with nesting >=2 or an optional part; totality case rejected after >=1 frame was consumed; distinct by case",
 		genC19, checkC19, 10*time.Second)
 }
 
@@ -313,6 +313,18 @@ func checkC19(raw json.RawMessage) iso.Result {
 				col.FailKey(k, "round trip changed the statement\n want: %s\n  got: %s", clip(want), clip(got))
 			}
 		}
+		if got == want {
+			// the same bytes through the plugin entry point (what a custom linter receives on stdin)
+			ps, perr, handled := readViaPlugin(s, b)
+			if handled {
+				col.Label("plugin-entry-round-trip")
+				if perr != nil {
+					col.FailKey(codecKey(want, "plugin-read"), "plugin.ReadLinterRequest fails on a valid encoding (%d bytes) that codec.Decoder accepts: %v\n statement: %s", len(b), perr, clip(want))
+				} else if pg, cerr := canon.Statement(ps, mode); cerr != nil || pg != want {
+					col.FailKey(codecKey(want, "plugin-diff"), "plugin.ReadLinterRequest returns another statement than was encoded (%v)\n want: %s\n  got: %s", cerr, clip(want), clip(pg))
+				}
+			}
+		}
 		if strings.Count(want, "(") >= 6 || strings.Contains(want, " -") {
 			col.Res.NonTrivial = true
 		}
@@ -473,4 +485,87 @@ func clipBytes(b []byte) []byte {
 		return b[:200]
 	}
 	return b
+}
+
+func readReq[T plugin.LintStatement](b []byte) (st ast.Statement, err error) {
+	defer func() {
+		if r := recover(); r != nil {
+			err = fmt.Errorf("PANIC: %v", r)
+		}
+	}()
+	r, err := plugin.ReadLinterRequest[T](bytes.NewReader(b))
+	if err != nil {
+		return nil, err
+	}
+	if x, ok := any(r.Statement).(ast.Statement); ok {
+		return x, nil
+	}
+	return nil, fmt.Errorf("request statement %T is not a statement", r.Statement)
+}
+
+// readViaPlugin decodes an encoding through plugin.ReadLinterRequest instantiated at the statement's own type.
+func readViaPlugin(s ast.Statement, b []byte) (ast.Statement, error, bool) {
+	var st ast.Statement
+	var err error
+	switch s.(type) {
+	case *ast.AclDeclaration:
+		st, err = readReq[*ast.AclDeclaration](b)
+	case *ast.BackendDeclaration:
+		st, err = readReq[*ast.BackendDeclaration](b)
+	case *ast.DirectorDeclaration:
+		st, err = readReq[*ast.DirectorDeclaration](b)
+	case *ast.TableDeclaration:
+		st, err = readReq[*ast.TableDeclaration](b)
+	case *ast.SubroutineDeclaration:
+		st, err = readReq[*ast.SubroutineDeclaration](b)
+	case *ast.PenaltyboxDeclaration:
+		st, err = readReq[*ast.PenaltyboxDeclaration](b)
+	case *ast.RatecounterDeclaration:
+		st, err = readReq[*ast.RatecounterDeclaration](b)
+	case *ast.BlockStatement:
+		st, err = readReq[*ast.BlockStatement](b)
+	case *ast.ImportStatement:
+		st, err = readReq[*ast.ImportStatement](b)
+	case *ast.IncludeStatement:
+		st, err = readReq[*ast.IncludeStatement](b)
+	case *ast.DeclareStatement:
+		st, err = readReq[*ast.DeclareStatement](b)
+	case *ast.SetStatement:
+		st, err = readReq[*ast.SetStatement](b)
+	case *ast.UnsetStatement:
+		st, err = readReq[*ast.UnsetStatement](b)
+	case *ast.RemoveStatement:
+		st, err = readReq[*ast.RemoveStatement](b)
+	case *ast.IfStatement:
+		st, err = readReq[*ast.IfStatement](b)
+	case *ast.SwitchStatement:
+		st, err = readReq[*ast.SwitchStatement](b)
+	case *ast.RestartStatement:
+		st, err = readReq[*ast.RestartStatement](b)
+	case *ast.EsiStatement:
+		st, err = readReq[*ast.EsiStatement](b)
+	case *ast.AddStatement:
+		st, err = readReq[*ast.AddStatement](b)
+	case *ast.CallStatement:
+		st, err = readReq[*ast.CallStatement](b)
+	case *ast.ErrorStatement:
+		st, err = readReq[*ast.ErrorStatement](b)
+	case *ast.LogStatement:
+		st, err = readReq[*ast.LogStatement](b)
+	case *ast.ReturnStatement:
+		st, err = readReq[*ast.ReturnStatement](b)
+	case *ast.SyntheticStatement:
+		st, err = readReq[*ast.SyntheticStatement](b)
+	case *ast.SyntheticBase64Statement:
+		st, err = readReq[*ast.SyntheticBase64Statement](b)
+	case *ast.GotoStatement:
+		st, err = readReq[*ast.GotoStatement](b)
+	case *ast.GotoDestinationStatement:
+		st, err = readReq[*ast.GotoDestinationStatement](b)
+	case *ast.FunctionCallStatement:
+		st, err = readReq[*ast.FunctionCallStatement](b)
+	default:
+		return nil, nil, false
+	}
+	return st, err, true
 }
